@@ -7,9 +7,7 @@
 -/
 import QEProofs.Lemmas.C01More
 import QEProofs.Lemmas.C01Solve
-import Mathlib.Algebra.BigOperators.Field
-import Mathlib.Algebra.BigOperators.Ring.Finset
-import Mathlib.Tactic.FieldSimp
+import QEProofs.Lemmas.C04Simplex
 
 set_option linter.unusedSectionVars false
 
@@ -17,116 +15,6 @@ namespace QE.C01
 open List QE.Pivot
 
 variable {K : Type} [Field K] [LinearOrder K] [IsStrictOrderedRing K]
-
-/-! ### facts about the shared pivoting model `QEModel.Pivot` needed here
-  (self-contained re-proofs, so that this file depends on no other property's lemma files) -/
-
-@[simp] theorem lp_pivot_nr (T : M K) (c r : ℕ) : (pivot T c r).nr = T.nr := rfl
-@[simp] theorem lp_pivot_nc (T : M K) (c r : ℕ) : (pivot T c r).nc = T.nc := rfl
-
-theorem pivot_get_r (T : M K) (c r j : ℕ) (hr : r < T.nr) (hj : j < T.nc) :
-    (pivot T c r).get r j = T.get r j / T.get r c := by
-  unfold pivot
-  rw [M.get_tab _ _ _ _ _ hr hj]
-  simp
-
-theorem pivot_get_i (T : M K) (c r i j : ℕ) (hi : i < T.nr) (hj : j < T.nc) (hir : i ≠ r) :
-    (pivot T c r).get i j = T.get i j - (T.get r j / T.get r c) * T.get i c := by
-  unfold pivot
-  rw [M.get_tab _ _ _ _ _ hi hj]
-  simp only [if_neg hir]
-  by_cases hm : T.get i c = 0
-  · simp [hm]
-  · have : (T.get i c == 0) = false := by simpa using hm
-    simp [this]
-
-/-- the minimisers returned by one pass of the ratio test are among the candidates -/
-theorem minRatio_foldl_subset (T : M K) (pc tc : ℕ) (tp td : K) : ∀ (l : List ℕ) (st : MRState K),
-    ∀ i ∈ (l.foldl (minRatioStep T pc tc tp td) st).2, i ∈ st.2 ∨ i ∈ l := by
-  intro l
-  induction l with
-  | nil => intro st i hi; exact Or.inl hi
-  | cons a l ih =>
-    intro st i hi
-    simp only [foldl_cons] at hi
-    rcases ih _ i hi with h | h
-    · -- i is in the list part of the state after one step
-      unfold minRatioStep at h
-      split_ifs at h
-      · exact Or.inl h
-      · cases hst : st.1 with
-        | none => simp only [hst] at h; simp at h; exact Or.inr (by simp [h])
-        | some rmin =>
-          simp only [hst] at h
-          split_ifs at h
-          · exact Or.inl h
-          · simp at h; exact Or.inr (by simp [h])
-          · simp only [mem_append, mem_singleton] at h
-            rcases h with h | h
-            · exact Or.inl h
-            · exact Or.inr (by simp [h])
-    · exact Or.inr (by simp [h])
-
-theorem minRatioNoTie_subset (T : M K) (pc tc : ℕ) (cands : List ℕ) (tp td : K) (i : ℕ)
-    (hi : i ∈ minRatioNoTie T pc tc cands tp td) : i ∈ cands := by
-  unfold minRatioNoTie at hi
-  rcases minRatio_foldl_subset T pc tc tp td cands (none, []) i hi with h | h
-  · simp at h
-  · exact h
-
-theorem lexLoop_subset (T : M K) (pc : ℕ) (tp td : K) (js : List ℕ) :
-    ∀ (a : List ℕ) (i : ℕ), i ∈ (lexLoop T pc tp td js a).2 → i ∈ a := by
-  induction js with
-  | nil => intro a i hi; simpa [lexLoop] using hi
-  | cons j js ih =>
-    intro a i hi
-    unfold lexLoop at hi
-    by_cases hj : j = pc
-    · rw [if_pos hj] at hi; exact ih a i hi
-    · rw [if_neg hj] at hi
-      by_cases hl : (minRatioNoTie T pc j a tp td).length = 1
-      · simp only [hl, if_true] at hi
-        exact minRatioNoTie_subset T pc j a tp td i hi
-      · simp only [hl, if_false] at hi
-        exact minRatioNoTie_subset T pc j a tp td i (ih _ i hi)
-
-theorem lexLoop_true_len (T : M K) (pc : ℕ) (tp td : K) (js : List ℕ) :
-    ∀ (a : List ℕ), (lexLoop T pc tp td js a).1 = true →
-      (lexLoop T pc tp td js a).2.length = 1 := by
-  induction js with
-  | nil => intro a h; simp [lexLoop] at h
-  | cons j js ih =>
-    intro a h
-    unfold lexLoop at h ⊢
-    by_cases hj : j = pc
-    · rw [if_pos hj] at h ⊢; exact ih a h
-    · rw [if_neg hj] at h ⊢
-      by_cases hl : (minRatioNoTie T pc j a tp td).length = 1
-      · simp only [hl, if_true]
-      · simp only [hl, if_false] at h ⊢
-        exact ih _ h
-
-theorem headD_mem_len_one (l : List ℕ) (h : l.length = 1) : l.headD 0 ∈ l := by
-  match l, h with
-  | [x], _ => simp
-
-/-- a found pivot row is a row of the tableau -/
-theorem lexMinRatio_lt (T : M K) (pc ss : ℕ) (tp td : K)
-    (h : (lexMinRatio T pc ss tp td).1 = true) : (lexMinRatio T pc ss tp td).2 < T.nr := by
-  have hmem : (lexMinRatio T pc ss tp td).2 ∈
-      minRatioNoTie T pc (T.nc - 1) (List.range T.nr) tp td := by
-    unfold lexMinRatio at h ⊢
-    by_cases h1 : (minRatioNoTie T pc (T.nc - 1) (List.range T.nr) tp td).length = 1
-    · simp only [h1, if_true]
-      exact headD_mem_len_one _ h1
-    · simp only [h1, if_false] at h ⊢
-      by_cases h2 : (minRatioNoTie T pc (T.nc - 1) (List.range T.nr) tp td).length ≥ 2
-      · simp only [h2, if_true] at h ⊢
-        have hlen := lexLoop_true_len T pc tp td _ _ h
-        exact lexLoop_subset T pc tp td _ _ _ (headD_mem_len_one _ hlen)
-      · simp only [h2, if_false] at h
-        exact absurd h (by simp)
-  exact List.mem_range.mp (minRatioNoTie_subset T pc _ _ tp td _ hmem)
 
 /-- `T` (shape `(n+1) × (L+n+1)`) is obtained from `T0` by row operations that never use the
     criterion row `n` as a pivot row, `T0` having the identity in columns `L … L+n−1` of its
@@ -229,75 +117,29 @@ theorem rowInv_start (P : Prob K) (β : K) (basis0 : List ℕ) :
       exact ih _ (fun i hi => hl i (by simp [hi])) (rowInv_pivot h _ a (hl a (by simp)))
   exact key _ _ (fun i hi => mem_range.mp hi) (rowInv_init P β)
 
-/-! ### `_pivot_col` -/
+/-! ### `solve_tableau` (the C04 model, any tolerances) -/
 
-theorem pivotCol_some_stays (T : M K) : ∀ (l : List ℕ) (c : K) (j : ℕ),
-    (l.foldl (fun (st : K × Option ℕ) j =>
-      if st.1 < T.get (T.nr - 1) j then (T.get (T.nr - 1) j, some j) else st) (c, some j)).2 ≠ none := by
-  intro l
-  induction l with
-  | nil => intro c j; simp
-  | cons a l ih =>
-    intro c j
-    simp only [foldl_cons]
-    split_ifs
-    · exact ih _ _
-    · exact ih _ _
+theorem rowInv_step (tol : QE.C04.Tol K) {T0 T T' : M K} {b b' : List ℕ} {n L : ℕ}
+    (h : RowInv T0 T n L) (hst : QE.C04.Step tol true T b T' b') : RowInv T0 T' n L := by
+  obtain ⟨c, _, hf, hT, _⟩ := hst
+  subst hT
+  have hrow := (lexMinRatio_found_pos (QE.C04.dropLast T) c _ tol.piv tol.diff hf).1
+  have : (QE.C04.dropLast T).nr = n := by simp [h.1]
+  rw [this] at hrow
+  exact rowInv_pivot h c _ hrow
 
-theorem pivotCol_none_aux (T : M K) : ∀ (l : List ℕ) (c : K),
-    (l.foldl (fun (st : K × Option ℕ) j =>
-      if st.1 < T.get (T.nr - 1) j then (T.get (T.nr - 1) j, some j) else st) (c, none)).2 = none →
-    ∀ j ∈ l, T.get (T.nr - 1) j ≤ c := by
-  intro l
-  induction l with
-  | nil => intro c _ j hj; simp at hj
-  | cons a l ih =>
-    intro c h j hj
-    simp only [foldl_cons] at h
-    by_cases hlt : c < T.get (T.nr - 1) a
-    · rw [if_pos hlt] at h
-      exact absurd h (pivotCol_some_stays T l _ _)
-    · rw [if_neg hlt] at h
-      rcases mem_cons.mp hj with rfl | hj
-      · exact not_lt.mp hlt
-      · exact ih c h j hj
-
-/-- no entering column: every scanned criterion coefficient is `≤ fea_tol` -/
-theorem pivotCol_none {T : M K} {stop : ℕ} {fea : K} (h : pivotCol T stop fea = none) :
-    ∀ j < stop, T.get (T.nr - 1) j ≤ fea := by
-  intro j hj
-  exact pivotCol_none_aux T (range stop) fea h j (mem_range.mpr hj)
-
-/-! ### `solve_tableau` -/
-
-theorem solveTableau_inv (tol : PivTol K) {T0 : M K} {n L : ℕ} : ∀ (fuel : ℕ) (T : M K) (b : List ℕ),
-    RowInv T0 T n L →
-    RowInv T0 (solveTableau tol fuel T b).T n L ∧
-    ((solveTableau tol fuel T b).status = 0 →
-      ∀ j < L, (solveTableau tol fuel T b).T.get n j ≤ tol.fea) := by
-  intro fuel
-  induction fuel with
-  | zero => intro T b h; exact ⟨h, fun hs => by simp [solveTableau] at hs⟩
-  | succ fuel ih =>
-    intro T b h
-    simp only [solveTableau]
-    cases hpc : pivotCol T (T.nc - 1 - (T.nr - 1)) tol.fea with
-    | none =>
-      simp only
-      refine ⟨h, fun _ j hj => ?_⟩
-      have := pivotCol_none hpc j (by rw [h.1, h.2.1]; omega)
-      rwa [h.1] at this
-    | some c =>
-      simp only
-      by_cases hf : (lexMinRatio { T with nr := T.nr - 1 } c (T.nc - (T.nr - 1) - 1) tol.piv tol.diff).1 = true
-      · rw [if_pos hf]
-        have hrow := lexMinRatio_lt { T with nr := T.nr - 1 } c _ tol.piv tol.diff hf
-        have hr : (lexMinRatio { T with nr := T.nr - 1 } c (T.nc - (T.nr - 1) - 1) tol.piv tol.diff).2 < n := by
-          have : ({ T with nr := T.nr - 1 } : M K).nr = n := by simp [h.1]
-          rwa [this] at hrow
-        exact ih _ _ (rowInv_pivot h c _ hr)
-      · rw [if_neg hf]
-        exact ⟨h, fun hs => by simp at hs⟩
+theorem solveTableau_inv (tol : QE.C04.Tol K) {T0 : M K} {n L : ℕ} (fuel : ℕ) (T : M K) (b : List ℕ)
+    (h : RowInv T0 T n L) :
+    RowInv T0 (QE.C04.solveTableau tol true fuel T b).T n L ∧
+    ((QE.C04.solveTableau tol true fuel T b).status = 0 →
+      ∀ j < L, (QE.C04.solveTableau tol true fuel T b).T.get n j ≤ tol.fea) := by
+  have hinv := QE.C04.solveTableau_induct tol true (fun T _ => RowInv T0 T n L)
+    (fun T b T' b' hT hst => rowInv_step tol hT hst) fuel T b h
+  refine ⟨hinv, fun hs j hj => ?_⟩
+  have hpc := QE.C04.solveTableau_status0 tol true fuel T b hs
+  have := QE.C04.pivotCol_none _ true tol.fea hpc j (by
+    simp only [if_true]; rw [hinv.1, hinv.2.1]; omega)
+  rwa [hinv.1] at this
 
 /-! ### the columns -/
 
@@ -381,42 +223,54 @@ theorem rowInv_reduced_cost {P : Prob K} {β : K} {T : M K}
   rw [h2]
   ring
 
+/-- the value vector read off a tableau: `v(k) = −T[n, L+k]` -/
+def vOfTab (P : Prob K) (T : M K) : List K :=
+  (range P.length).map fun k => T.get P.length ((lpCols P).length + k) * (-(1 : K))
+
+theorem vOfTab_getD (P : Prob K) (T : M K) (i : ℕ) (hi : i < P.length) :
+    (vOfTab P T).getD i 0 = T.get P.length ((lpCols P).length + i) * (-(1 : K)) := by
+  unfold vOfTab
+  rw [← getElem_eq_getD (h := by simp [hi]) 0]; simp
+
+@[simp] theorem vOfTab_length (P : Prob K) (T : M K) : (vOfTab P T).length = P.length := by
+  simp [vOfTab]
+
+/-- reduced costs bounded by `fea` in a tableau satisfying `RowInv` ⇒ `T v ≤ v + fea` -/
+theorem dual_feasible_of_rowInv {P : Prob K} (hP : WF P) {β : K} {T : M K} {fea : K}
+    (hinv : RowInv (lpTableau P β) T P.length (lpCols P).length)
+    (hred : ∀ j < (lpCols P).length, T.get P.length j ≤ fea) :
+    LeAdd fea (bellman P β (vOfTab P T)) (vOfTab P T) := by
+  unfold LeAdd
+  rw [forall₂_iff_get]
+  refine ⟨by simp, fun i h1 h2 => ?_⟩
+  have hi : i < P.length := by simpa using h1
+  simp only [get_eq_getElem, bellman, getElem_map]
+  have hx : bestAct β (vOfTab P T) P[i] ∈ P[i] := bestAct_mem (hP.nonempty _ (getElem_mem hi))
+  set x := bestAct β (vOfTab P T) P[i] with hxdef
+  have hmem : (i, x) ∈ lpCols P := lpCols_mem.mpr ⟨hi, hx⟩
+  obtain ⟨j, hj, hjeq⟩ := mem_iff_getElem.mp hmem
+  have hcol : (lpCols P).getD j dfltCol = (i, x) := by
+    rw [← getElem_eq_getD (h := hj) dfltCol]; exact hjeq
+  have hq := (hP.stoch _ (getElem_mem hi) x hx).2.2
+  have hrc := rowInv_reduced_cost hinv j hj i x hcol hi hq
+  have hle := hred j hj
+  rw [hrc] at hle
+  change qval β (vOfTab P T) x - (vOfTab P T).getD i 0 ≤ fea at hle
+  rw [getElem_eq_getD 0]
+  linarith
+
 /-- **approximate dual feasibility at status 0.**  When `ddp_linprog_simplex` reports success, the
     returned `v` satisfies `r(s,a) + β q(s,a)·v ≤ v(s) + fea_tol` for every feasible pair, i.e.
     `T v ≤ v + fea_tol` entrywise — whatever start policy, pivot history and iteration count. -/
-theorem lpSolve_dual_feasible {P : Prob K} (hP : WF P) {β : K} (tol : PivTol K) (σ0 : List ℕ)
+theorem lpSolve_dual_feasible {P : Prob K} (hP : WF P) {β : K} (tol : QE.C04.Tol K) (σ0 : List ℕ)
     (maxIter : ℕ) (hstop : (lpSolve tol P β σ0 maxIter).stopped = true) :
     LeAdd tol.fea (bellman P β (lpSolve tol P β σ0 maxIter).v) (lpSolve tol P β σ0 maxIter).v := by
   unfold lpSolve at hstop ⊢
   simp only at hstop ⊢
   generalize hb : ((range P.length).map fun i => findCol (lpCols P) i (σ0.getD i 0)) = basis0 at hstop ⊢
   have hinv := solveTableau_inv tol (maxIter - P.length) _ basis0 (rowInv_start P β basis0)
-  have hst : (solveTableau tol (maxIter - P.length) (lpStart P β basis0) basis0).status = 0 := by
+  have hst : (QE.C04.solveTableau tol true (maxIter - P.length) (lpStart P β basis0) basis0).status = 0 := by
     simpa using hstop
-  have hred := hinv.2 hst
-  set rT := (solveTableau tol (maxIter - P.length) (lpStart P β basis0) basis0).T with hrT
-  unfold LeAdd
-  rw [forall₂_iff_get]
-  refine ⟨by simp, fun i h1 h2 => ?_⟩
-  have hi : i < P.length := by simpa using h1
-  simp only [get_eq_getElem, bellman, getElem_map]
-  have hx : bestAct β ((range P.length).map fun k => rT.get P.length ((lpCols P).length + k) * (-(1 : K))) P[i]
-      ∈ P[i] := bestAct_mem (hP.nonempty _ (getElem_mem hi))
-  set x := bestAct β ((range P.length).map fun k => rT.get P.length ((lpCols P).length + k) * (-(1 : K))) P[i]
-    with hxdef
-  have hmem : (i, x) ∈ lpCols P := lpCols_mem.mpr ⟨hi, hx⟩
-  obtain ⟨j, hj, hjeq⟩ := mem_iff_getElem.mp hmem
-  have hcol : (lpCols P).getD j dfltCol = (i, x) := by
-    rw [← getElem_eq_getD (h := hj) dfltCol]; exact hjeq
-  have hq := (hP.stoch _ (getElem_mem hi) x hx).2.2
-  have hrc := rowInv_reduced_cost hinv.1 j hj i x hcol hi hq
-  have hle := hred j hj
-  rw [hrc] at hle
-  have hvi : ((range P.length).map fun k => rT.get P.length ((lpCols P).length + k) * (-(1 : K))).getD i 0
-      = rT.get P.length ((lpCols P).length + i) * (-(1 : K)) := by
-    rw [← getElem_eq_getD (h := by simp [hi]) 0]; simp
-  rw [hvi] at hle
-  simp only [getElem_range]
-  linarith
+  exact dual_feasible_of_rowInv hP hinv.1 (hinv.2 hst)
 
 end QE.C01
